@@ -13,6 +13,7 @@ import (
 	"hash"
 	"reflect"
 	"sort"
+	"sync"
 	"time"
 )
 
@@ -20,6 +21,7 @@ var timeType = reflect.TypeOf(time.Time{})
 
 type walker struct {
 	h     hash.Hash
+	out   []byte
 	ptrs  map[uintptr]int
 	buf   [8]byte
 	nodes int
@@ -29,17 +31,31 @@ type walker struct {
 
 // Hash returns the canonical hash of v and the number of nodes visited.
 func Hash(v any, skip map[string]bool) ([32]byte, int) {
-	w := &walker{h: sha256.New(), ptrs: map[uintptr]int{}, skip: skip}
+	bp := bufPool.Get().(*[]byte)
+	w := &walker{out: (*bp)[:0], ptrs: map[uintptr]int{}, skip: skip}
 	w.walk(reflect.ValueOf(v), 0)
-	var out [32]byte
-	copy(out[:], w.h.Sum(nil))
+	out := sha256.Sum256(w.out)
+	*bp = w.out
+	bufPool.Put(bp)
 	return out, w.nodes
 }
 
-func (w *walker) tag(s string) { w.h.Write([]byte(s)) }
+var bufPool = sync.Pool{New: func() any { b := make([]byte, 0, 1<<18); return &b }}
+
+var typeNames sync.Map // reflect.Type -> string
+
+func typeName(t reflect.Type) string {
+	if s, ok := typeNames.Load(t); ok {
+		return s.(string)
+	}
+	s := t.String()
+	typeNames.Store(t, s)
+	return s
+}
+
+func (w *walker) tag(s string) { w.out = append(w.out, s...) }
 func (w *walker) u64(x uint64) {
-	binary.LittleEndian.PutUint64(w.buf[:], x)
-	w.h.Write(w.buf[:])
+	w.out = binary.LittleEndian.AppendUint64(w.out, x)
 }
 
 func (w *walker) walk(v reflect.Value, depth int) {
@@ -96,7 +112,8 @@ func (w *walker) walk(v reflect.Value, depth int) {
 			return
 		}
 		e := v.Elem()
-		w.tag("if:" + e.Type().String())
+		w.tag("if:")
+		w.tag(typeName(e.Type()))
 		w.walk(e, depth+1)
 	case reflect.Ptr:
 		if v.IsNil() {
@@ -122,10 +139,11 @@ func (w *walker) walk(v reflect.Value, depth int) {
 			w.tag("sync")
 			return
 		}
-		w.tag("st:" + t.String() + "{")
+		w.tag("st:")
+		w.tag(typeName(t))
+		w.tag("{")
 		for i := 0; i < v.NumField(); i++ {
-			f := t.Field(i)
-			if w.skip != nil && w.skip[t.String()+"."+f.Name] {
+			if len(w.skip) > 0 && w.skip[typeName(t)+"."+t.Field(i).Name] {
 				continue
 			}
 			w.walk(v.Field(i), depth+1)
@@ -146,7 +164,7 @@ func (w *walker) walk(v reflect.Value, depth int) {
 		w.u64(uint64(v.Len()))
 		switch t.Elem().Kind() {
 		case reflect.Uint8:
-			w.h.Write(v.Bytes())
+			w.out = append(w.out, v.Bytes()...)
 		case reflect.Int32:
 			for i := 0; i < v.Len(); i++ {
 				w.u64(uint64(v.Index(i).Int()))
@@ -174,6 +192,28 @@ func (w *walker) walk(v reflect.Value, depth int) {
 		// unique and, in this code base, never contain pointers), then walk
 		// key and value with the main walker so that pointer ids are assigned
 		// deterministically.
+		if t.Key().Kind() == reflect.String {
+			// fast path: sort the key strings, look the values up in order
+			keys := make([]string, 0, v.Len())
+			it := v.MapRange()
+			for it.Next() {
+				keys = append(keys, it.Key().String())
+			}
+			sort.Strings(keys)
+			kt := t.Key()
+			for _, k := range keys {
+				w.tag("k")
+				w.u64(uint64(len(k)))
+				w.tag(k)
+				w.tag("=>")
+				kv := reflect.ValueOf(k)
+				if kv.Type() != kt {
+					kv = kv.Convert(kt)
+				}
+				w.walk(v.MapIndex(kv), depth+1)
+			}
+			return
+		}
 		type ent struct {
 			d [32]byte
 			k reflect.Value
@@ -181,10 +221,9 @@ func (w *walker) walk(v reflect.Value, depth int) {
 		ents := make([]ent, 0, v.Len())
 		it := v.MapRange()
 		for it.Next() {
-			sub := &walker{h: sha256.New(), ptrs: map[uintptr]int{}, skip: w.skip}
+			sub := &walker{ptrs: map[uintptr]int{}, skip: w.skip}
 			sub.walk(it.Key(), depth+1)
-			var d [32]byte
-			copy(d[:], sub.h.Sum(nil))
+			d := sha256.Sum256(sub.out)
 			ents = append(ents, ent{d, it.Key()})
 		}
 		sort.Slice(ents, func(i, j int) bool {
@@ -196,11 +235,11 @@ func (w *walker) walk(v reflect.Value, depth int) {
 			return false
 		})
 		for _, e := range ents {
-			w.h.Write(e.d[:])
+			w.out = append(w.out, e.d[:]...)
 			w.tag("=>")
 			w.walk(v.MapIndex(e.k), depth+1)
 		}
 	default:
-		w.tag("?" + t.String())
+		w.tag("?" + typeName(t))
 	}
 }
